@@ -239,6 +239,9 @@ IMP_HEADERS = {
     "two-lines": "from inline_snapshot import snapshot\nfrom inline_snapshot import outsource\n",
     "already": "from inline_snapshot import external\nfrom inline_snapshot import snapshot, outsource\n",
     "already-aliased": "from inline_snapshot import external as ext, snapshot, outsource\n",
+    # the first snapshot() call of the file happens inside an xfail test (evaluated under a temporary, disabled state)
+    "xfail-test-first": "import pytest\nfrom inline_snapshot import snapshot, outsource\n\n\n@pytest.mark.xfail\ndef test_0():\n    assert 1 == snapshot(2)\n",
+    "xfail-module-helper-first": "import pytest\nfrom inline_snapshot import snapshot, outsource\n\n\n@pytest.mark.xfail(reason='known')\ndef test_0():\n    assert outsource('payload') == snapshot('x')\n",
 }
 IMP_FLOWS = {
     "create-trim": [["create"], ["trim"], []],
